@@ -1,6 +1,442 @@
+/-
+  C03 — classic tab-separated export / import.
+
+  Model of: `Table.delimited_self` / `to_tsv` (biom/table.py), `Table._extract_data_from_tsv`,
+  `Table.from_tsv` and the part of the constructor that `from_tsv` reaches (list of
+  `[row, col, value]` entries with an announced shape, `errcheck`).
+
+  Text is `List Char`.  A line is a text; fields are obtained with `split '\t'`, exactly as the
+  code does, so the header detection (`strip`, `startswith('#')`), the "last column is metadata
+  unless it parses as a number in every data row" heuristic (`rsplit(delim, 1)[-1].strip()`) and the
+  stripping of the last field are transcribed statement by statement.
+
+  External functions are parameters: `NumIO.fmt` stands for `str(numpy.float64)`, `NumIO.parse`
+  for Python's `float(text)` (`none` = ValueError); the metadata formatter and the processing
+  function are user functions.
+-/
 import BiomModel.Codec
 open Lean
+
 namespace Biom.C03
-/-- stub: not built yet -/
-def handle (_req : Json) : Codec.R Json := .error "C03: model not built yet"
+
+abbrev Text := List Char
+
+/-- Python `str.isspace` for one character. -/
+def ws (c : Char) : Bool :=
+  let n := c.toNat
+  (9 ≤ n && n ≤ 13) || (28 ≤ n && n ≤ 32) || n == 0x85 || n == 0xa0 || n == 0x1680 ||
+  (0x2000 ≤ n && n ≤ 0x200a) || n == 0x2028 || n == 0x2029 || n == 0x202f || n == 0x205f ||
+  n == 0x3000
+
+def lstrip (s : Text) : Text := s.dropWhile ws
+def rstrip (s : Text) : Text := (s.reverse.dropWhile ws).reverse
+/-- `s.strip()` -/
+def strip (s : Text) : Text := lstrip (rstrip s)
+
+def consHead (c : Char) : List Text → List Text
+  | [] => [[c]]
+  | f :: fs => (c :: f) :: fs
+
+/-- `s.split(d)` for a one-character delimiter -/
+def split (d : Char) : Text → List Text
+  | [] => [[]]
+  | c :: cs => if c = d then [] :: split d cs else consHead c (split d cs)
+
+/-- `d.join(fields)` -/
+def join (d : Char) : List Text → Text
+  | [] => []
+  | [f] => f
+  | f :: g :: fs => f ++ d :: join d (g :: fs)
+
+/-- `s.rsplit(d, 1)[-1]` -/
+def afterLast (d : Char) (s : Text) : Text := (s.reverse.takeWhile (fun c => c != d)).reverse
+
+/-- `s.startswith('#')` -/
+def startsHash : Text → Bool
+  | c :: _ => c == '#'
+  | [] => false
+
+/-- the two external number/text functions -/
+structure NumIO (α : Type) where
+  fmt : α → Text
+  parse : Text → Option α
+
+/-! ### Export: `delimited_self` -/
+
+/-- What `delimited_self` reads from the table and its arguments.  `md` = `md.get(header_key)` of
+every observation (`none`: the table has no observation metadata). -/
+structure Export (α μ : Type) where
+  obs : List Text
+  samp : List Text
+  rows : List (List α)
+  md : Option (List μ) := none
+  headerKey : Option Text := none
+  headerValue : Option Text := none
+  colName : Text := "#OTU ID".toList
+
+/-- Python truthiness of `None | str` -/
+def truthy : Option Text → Bool
+  | some (_ :: _) => true
+  | _ => false
+
+def line0 : Text := "# Constructed from biom file".toList
+
+def headerLine (e : Export α μ) : Text :=
+  let base := e.colName ++ '\t' :: join '\t' e.samp
+  if truthy e.headerValue then base ++ '\t' :: e.headerValue.getD [] else base
+
+def baseLine (io : NumIO α) (o : Text) (r : List α) : Text :=
+  o ++ '\t' :: join '\t' (r.map io.fmt)
+
+/-- formatted metadata column, present iff `header_key and obs_metadata is not None` -/
+def mdTexts (fmtMd : μ → Text) (e : Export α μ) : Option (List Text) :=
+  if truthy e.headerKey then e.md.map (·.map fmtMd) else none
+
+def dataLines (io : NumIO α) (obs : List Text) (rows : List (List α)) : Option (List Text) → List Text
+  | none => List.zipWith (baseLine io) obs rows
+  | some ms => List.zipWith (fun (or : Text × List α) m => baseLine io or.1 or.2 ++ '\t' :: m) (obs.zip rows) ms
+
+/-- `to_tsv` as the list of lines that are joined with '\n' -/
+def toTsv (io : NumIO α) (fmtMd : μ → Text) (e : Export α μ) : Except Err (List Text) :=
+  if e.obs.isEmpty || e.samp.isEmpty then .error .tableException
+  else if e.headerKey.isSome != e.headerValue.isSome then .error .tableException
+  else .ok (line0 :: headerLine e :: dataLines io e.obs e.rows (mdTexts fmtMd e))
+
+/-- the returned text -/
+def toText (lines : List Text) : Text := join '\n' lines
+
+/-! ### Import: `_extract_data_from_tsv` -/
+
+structure Extracted (α : Type) where
+  samp : List Text
+  obs : List Text
+  triples : List (Nat × Nat × α)
+  md : Option (List Text)
+  mdName : Option Text
+  deriving Repr, DecidableEq
+
+/-- `not header` for `header = False | list` -/
+def falsy : Option (List Text) → Bool
+  | none => true
+  | some [] => true
+  | _ => false
+
+/-- the header loop; returns `(header, data_start)`.  A blank line does not advance `list_index`. -/
+def findHeader : List Text → Option (List Text) → Nat → Option (List Text) × Nat
+  | [], h, _ => (h, 0)
+  | l :: ls, h, i =>
+    if strip l = [] then findHeader ls h i
+    else if !startsHash l then
+      if falsy h then (some ((split '\t' (rstrip l)).tail), i + 1) else (h, i)
+    else findHeader ls (some ((split '\t' (strip l)).tail)) (i + 1)
+
+/-- `fields[-1] = fields[-1].strip()` -/
+def stripLast : List Text → List Text
+  | [] => []
+  | [f] => [strip f]
+  | f :: g :: fs => f :: stripLast (g :: fs)
+
+def parseAll (io : NumIO α) : List Text → Option (List α)
+  | [] => some []
+  | f :: fs =>
+    match io.parse f with
+    | none => none
+    | some v =>
+      match parseAll io fs with
+      | none => none
+      | some vs => some (v :: vs)
+
+/-- the inner loop over one parsed row: non-zero values become `[row, column, value]` -/
+def rowTriples [Zero α] [DecidableEq α] (i : Nat) : Nat → List α → List (Nat × Nat × α)
+  | _, [] => []
+  | j, v :: vs => if v = 0 then rowTriples i (j + 1) vs else (i, j, v) :: rowTriples i (j + 1) vs
+
+/-- the data loop from `data_start` on: (obs_ids, data, metadata) -/
+def dataLoop [Zero α] [DecidableEq α] (io : NumIO α) (numeric : Bool) :
+    List Text → Nat → Except Err (List Text × List (Nat × Nat × α) × List Text)
+  | [], _ => .ok ([], [], [])
+  | l :: ls, i =>
+    if strip l = [] then dataLoop io numeric ls i
+    else if startsHash l then dataLoop io numeric ls i
+    else
+      let fields := stripLast (split '\t' l)
+      let valFields := if numeric then fields.drop 1 else (fields.drop 1).dropLast
+      match parseAll io valFields with
+      | none => .error .type
+      | some vals =>
+        match dataLoop io numeric ls (i + 1) with
+        | .error e => .error e
+        | .ok (os, ts, ms) =>
+          .ok (fields.headD [] :: os, rowTriples i 0 vals ++ ts,
+               if numeric then ms else (fields.getLast?.getD []) :: ms)
+
+def extractData [Zero α] [DecidableEq α] (io : NumIO α) (lines : List Text) : Except Err (Extracted α) :=
+  let hd := findHeader lines none 0
+  let dataStart := hd.2
+  let body := lines.drop dataStart
+  let numeric := body.all (fun l => (io.parse (strip (afterLast '\t' l))).isSome)
+  match hd.1 with
+  | none => .error .type
+  | some h =>
+    if numeric || dataStart == 0 then
+      match dataLoop io numeric body dataStart with
+      | .error e => .error e
+      | .ok (os, ts, _) => .ok { samp := h, obs := os, triples := ts, md := none, mdName := none }
+    else
+      match h.getLast? with
+      | none => .error .index
+      | some nm =>
+        match dataLoop io false body dataStart with
+        | .error e => .error e
+        | .ok (os, ts, ms) => .ok { samp := h.dropLast, obs := os, triples := ts, md := some ms, mdName := some nm }
+
+/-! ### `from_tsv` and the constructor -/
+
+structure Imported (α ν : Type) where
+  obs : List Text
+  samp : List Text
+  rows : List (List α)
+  /-- category name and processed value per observation -/
+  omd : Option (List (Text × ν))
+  deriving Repr, DecidableEq
+
+/-- the value the sparse matrix holds at (i, j) (entries produced by `dataLoop` never share a cell) -/
+def cellOf [Zero α] (ts : List (Nat × Nat × α)) (i j : Nat) : α :=
+  match ts.find? (fun t => t.1 == i && t.2.1 == j) with
+  | some t => t.2.2
+  | none => 0
+
+def gridOf [Zero α] (n m : Nat) (ts : List (Nat × Nat × α)) : List (List α) :=
+  (List.range n).map (fun i => (List.range m).map (fun j => cellOf ts i j))
+
+def fromTsv [Zero α] [DecidableEq α] (io : NumIO α) (proc : Text → ν) (lines : List Text) :
+    Except Err (Imported α ν) :=
+  match extractData io lines with
+  | .error e => .error e
+  | .ok x =>
+    let n := x.obs.length
+    let m := x.samp.length
+    -- scipy refuses an entry outside the announced shape
+    if x.triples.any (fun t => decide (n ≤ t.1) || decide (m ≤ t.2.1)) then .error .value
+    -- errcheck: `empty` (ignored) is visited first and masks the rest; else duplicated IDs are refused
+    else if n != 0 && m != 0 && !(decide x.obs.Nodup && decide x.samp.Nodup) then .error .tableException
+    else .ok { obs := x.obs, samp := x.samp, rows := gridOf n m x.triples,
+               omd := match x.md, x.mdName with
+                 | some ms, some nm => some (ms.map (fun s => (nm, proc s)))
+                 | _, _ => none }
+
+/-- export then import, the composition the property is about -/
+def roundTrip [Zero α] [DecidableEq α] (io : NumIO α) (fmtMd : μ → Text) (proc : Text → ν)
+    (eol : Text) (e : Export α μ) : Except Err (Imported α ν) :=
+  match toTsv io fmtMd e with
+  | .error err => .error err
+  | .ok lines => fromTsv io proc (lines.map (· ++ eol))
+
+/-! ### The property, on observations -/
+
+/-- value of (observation ID, sample ID) in a grid with the given ID lists -/
+def cellBy (obs samp : List Text) (rows : List (List α)) (o s : Text) : Option α :=
+  (rows[obs.idxOf o]?).bind (·[samp.idxOf s]?)
+
+/-- is a category exported (header column and metadata column both written)? -/
+def exported (e : Export α μ) : Bool := truthy e.headerKey && truthy e.headerValue && e.md.isSome
+
+/-- `holds e r`: `r` is what re-importing the exported text of `e` gave.  IDs of both axes equal
+in order; every (observation, sample) value equal, looked up by ID; the matrix has the shape of
+the ID lists; an exported category is found under the header value with the original values. -/
+def holdsV [DecidableEq α] [DecidableEq μ] (e : Export α μ) (r : Except Err (Imported α μ)) : Codec.Verdict :=
+  match r with
+  | .error _ => some "import_ok"
+  | .ok t =>
+    Codec.allV [
+      Codec.chk "ids_obs" (decide (t.obs = e.obs)),
+      Codec.chk "ids_samp" (decide (t.samp = e.samp)),
+      Codec.chk "shape" (t.rows.length == t.obs.length && t.rows.all (·.length == t.samp.length)),
+      Codec.chk "grid" (e.obs.all (fun o => e.samp.all (fun s =>
+        decide (cellBy t.obs t.samp t.rows o s = cellBy e.obs e.samp e.rows o s)))),
+      Codec.chk "metadata" (if exported e then
+        decide (t.omd = e.md.map (·.map (fun x => (e.headerValue.getD [], x)))) else true)]
+
+def holds [DecidableEq α] [DecidableEq μ] (e : Export α μ) (r : Except Err (Imported α μ)) : Bool :=
+  (holdsV e r).isNone
+
+/-! ### The named family of formatters / processing functions of `biom convert` -/
+
+inductive MdVal where
+  | text (s : Text)
+  | list (xs : List Text)
+  deriving Repr, DecidableEq
+
+/-- `sep.join(xs)` -/
+def joinS (sep : Text) : List Text → Text
+  | [] => []
+  | [f] => f
+  | f :: g :: fs => f ++ sep ++ joinS sep (g :: fs)
+
+/-- `'; '.join(x)` (a text is iterated character by character, as Python does) -/
+def fmtSc : MdVal → Text
+  | .list xs => joinS "; ".toList xs
+  | .text s => joinS "; ".toList (s.map (fun c => [c]))
+
+/-- `[e.strip() for e in x.split(';')]` -/
+def procSc (s : Text) : MdVal := .list ((split ';' s).map strip)
+
+def fmtNaive : MdVal → Text
+  | .text s => s
+  | .list xs => joinS [] xs
+
+def procNaive (s : Text) : MdVal := .text s
+
+def formatterOf (name : String) : MdVal → Text :=
+  if name == "sc_separated" then fmtSc else fmtNaive
+
+def processorOf (name : String) : Text → MdVal :=
+  if name == "sc_separated" || name == "taxonomy" then procSc else procNaive
+
+/-! ### Driver side: numbers with the two non-finite texts `float()` accepts, oracles, JSON -/
+
+inductive Num where
+  | fin (q : Rat)
+  | special (s : String)
+  deriving Repr, DecidableEq
+
+instance : Zero Num := ⟨.fin 0⟩
+
+open Codec
+
+def asNum (j : Json) : R Num :=
+  match j with
+  | .obj _ => do pure (.special (← strF j "special"))
+  | v => do pure (.fin (← asRat v))
+
+def numToJson : Num → Json
+  | .fin q => ratToJson q
+  | .special s => Json.mkObj [("special", .str s)]
+
+def asText (j : Json) : R Text := do pure (← asStr j).toList
+def textToJson (t : Text) : Json := .str (String.ofList t)
+def textsToJson (ts : List Text) : Json := .arr (ts.map textToJson).toArray
+
+def asMdVal (j : Json) : R MdVal :=
+  match j with
+  | .str s => pure (.text s.toList)
+  | v => do pure (.list (← asList asText v))
+
+def mdValToJson : MdVal → Json
+  | .text s => textToJson s
+  | .list xs => textsToJson xs
+
+/-- oracle for `str(float64)`: pairs (value, text); a missing value prints as "?" (reported by the harness) -/
+def fmtOracle (tbl : List (Num × Text)) (v : Num) : Text :=
+  match tbl.find? (fun p => p.1 == v) with
+  | some p => p.2
+  | none => "?missing-fmt".toList
+
+/-- oracle for `float(text)`: pairs (text, value | null) -/
+def parseOracle (tbl : List (Text × Option Num)) (s : Text) : Option Num :=
+  match tbl.find? (fun p => p.1 == s) with
+  | some p => p.2
+  | none => some (.special "?missing-parse")
+
+def asIO (req : Json) : R (NumIO Num) := do
+  let f ← listF (fun p => do
+      match (← asArr p) with
+      | [a, b] => pure ((← asNum a), (← asText b))
+      | _ => .error "fmt pair") req "fmtOracle"
+  let p ← listF (fun p => do
+      match (← asArr p) with
+      | [a, b] => pure ((← asText a), (← asOpt asNum b))
+      | _ => .error "parse pair") req "parseOracle"
+  pure { fmt := fmtOracle f, parse := parseOracle p }
+
+def asExport (j : Json) : R (Export Num MdVal) := do
+  let obs ← listF asText j "obs"
+  let samp ← listF asText j "samp"
+  let rows ← listF (asList asNum) j "rows"
+  let md ← optF (asList asMdVal) j "md"
+  let hk ← optF asText j "headerKey"
+  let hv ← optF asText j "headerValue"
+  pure { obs, samp, rows, md, headerKey := hk, headerValue := hv }
+
+def asImported (j : Json) : R (Except Err (Imported Num MdVal)) := do
+  match optFld j "error" with
+  | some e => pure (.error (asErr (← asStr e)))
+  | none =>
+    let obs ← listF asText j "obs"
+    let samp ← listF asText j "samp"
+    let rows ← listF (asList asNum) j "rows"
+    let omd ← optF (asList (fun p => do
+      match (← asArr p) with
+      | [a, b] => pure ((← asText a), (← asMdVal b))
+      | _ => .error "omd pair")) j "omd"
+    pure (.ok { obs, samp, rows, omd })
+
+def importedToJson : Except Err (Imported Num MdVal) → Json
+  | .error e => errToJson e
+  | .ok t => Json.mkObj [("obs", textsToJson t.obs), ("samp", textsToJson t.samp),
+      ("rows", .arr (t.rows.map (fun r => Json.arr (r.map numToJson).toArray)).toArray),
+      ("omd", optToJson (fun l => Json.arr (l.map (fun p => Json.arr #[textToJson p.1, mdValToJson p.2])).toArray) t.omd)]
+
+def extractedToJson : Except Err (Extracted Num) → Json
+  | .error e => errToJson e
+  | .ok x => Json.mkObj [("samp", textsToJson x.samp), ("obs", textsToJson x.obs),
+      ("triples", .arr (x.triples.map (fun t => Json.arr #[toJson t.1, toJson t.2.1, numToJson t.2.2])).toArray),
+      ("md", optToJson textsToJson x.md), ("mdName", optToJson textToJson x.mdName)]
+
+def linesToJson : Except Err (List Text) → Json
+  | .error e => errToJson e
+  | .ok ls => textsToJson ls
+
+/-- requests:
+  {"op":"roundtrip", "export":…, "formatter":…, "processor":…, "fmtOracle":…, "parseOracle":…,
+   "implLines": [...] | {"error":…}, "results":[{"route":…, "eol":…, "table": imported | {"error":…}}…]}
+  {"op":"extract", "lines":[…], "parseOracle":…, "impl": extracted | {"error":…}}
+  {"op":"ws"}  → code points Lean's `ws` accepts -/
+def handle (req : Json) : R Json := do
+  match (← strF req "op") with
+  | "ws" =>
+    let cps := (List.range 0x3100).filter (fun n => ws (Char.ofNat n))
+    pure (Json.mkObj [("ws", natsToJson cps)])
+  | "extract" =>
+    let lines ← listF asText req "lines"
+    let p ← listF (fun p => do
+      match (← asArr p) with
+      | [a, b] => pure ((← asText a), (← asOpt asNum b))
+      | _ => .error "parse pair") req "parseOracle"
+    let io : NumIO Num := { fmt := fun _ => [], parse := parseOracle p }
+    let mj := extractedToJson (extractData io lines)
+    let ij ← fld req "impl"
+    pure (Json.mkObj [("holds", true), ("clause", .null), ("agree", .bool (mj.compress == ij.compress)), ("model", mj)])
+  | "roundtrip" =>
+    let e ← asExport (← fld req "export")
+    let io ← asIO req
+    let fmtMd := formatterOf (← strF req "formatter")
+    let proc := processorOf (← strF req "processor")
+    let mlines := toTsv io fmtMd e
+    let mlj := linesToJson mlines
+    let ilj ← fld req "implLines"
+    let results ← listF (fun r => do
+      pure ((← strF r "route"), (← asText (← fld r "eol")), (← fld r "table"))) req "results"
+    let mut verdict : Verdict := none
+    let mut agree := mlj.compress == ilj.compress
+    let mut what : List String := if agree then [] else ["to_tsv lines"]
+    let mut models : List (String × Json) := []
+    for (route, eol, tj) in results do
+      let imp ← asImported tj
+      match holdsV e imp with
+      | some c => if verdict.isNone then verdict := some (c ++ "@" ++ route)
+      | none => pure ()
+      let m := roundTrip io fmtMd proc eol e
+      let mj := importedToJson m
+      if mj.compress != (importedToJson imp).compress then
+        agree := false
+        what := what ++ ["from_tsv@" ++ route]
+      if !(models.any (fun p => p.1 == String.ofList eol)) then
+        models := models ++ [(String.ofList eol, mj)]
+    let mh := results.all (fun (_, eol, _) => holds e (roundTrip io fmtMd proc eol e))
+    pure (Json.mkObj (verdictToJson verdict ++ [("agree", .bool agree), ("what", strsToJson what),
+      ("model_holds", .bool mh),
+      ("model", Json.mkObj [("lines", mlj), ("imported", Json.mkObj models)])]))
+  | s => .error s!"bad op {s}"
+
 end Biom.C03
